@@ -63,3 +63,14 @@ Theorem C04_malformed_bind_drops : forall st body,
   decode_bind body = None -> do_bind st body = ([], st, Stop).
 Proof. intros st body H. unfold do_bind. rewrite H. reflexivity. Qed.
 Print Assumptions C04_malformed_bind_drops.
+
+(* ---------- the whole connection ---------- *)
+Require Import Spec.KindFacts Spec.Oracles Spec.OracleFacts Spec.OracleFactsLife.
+
+(* for every configuration whose encoder does not panic in text format, every raw byte
+   stream and every TLS plaintext, in every phase: the log of the connection contains no
+   crash and no exhausted-fuel event, and it ends with the connection being closed *)
+Theorem C04_connection_no_crash : forall c raw tls, text_safe c ->
+  existsb crashp (serve c raw tls) = false /\ ends_closed (serve c raw tls) = true.
+Proof. exact serve_no_crash. Qed.
+Print Assumptions C04_connection_no_crash.
